@@ -812,6 +812,20 @@ def check(prop, tier):
                     continue
             hdr, ops = split_case(fl["text"])
             body = "\n".join(hdr + ops) + "\n"
+            if part.get("timing"):
+                # a part that runs in real time with real threads: its invariants do not depend on timing, but whether a case reaches
+                # the failing state does. The candidate is replayed up to 30 times; reproduced at least once -> violation (reported
+                # unshrunk, marked "#timing"), never -> inconclusive
+                runs = [replay_case(binary, body, wd, extra_args=pargs) for _ in range(30)]
+                hits = [r_ for r_ in runs if r_[0] and r_[1] != "timeout"]
+                if not hits:
+                    p = save_failure(prop, pname, fl["text"], "flaky")
+                    inconclusive.append("%s: failure of kind %s did not reproduce in 30 replays" % (pname, fl["kind"]))
+                    continue
+                p = save_failure(prop, pname, with_header(prop, pname, hits[0][1], "#timing reproduced in %d of 30 replays\n" % len(hits) + body, fl.get("log", "")[-300:].replace("\n", " ")))
+                violations.append((pname, p, hits[0][1]))
+                log(hits[0][2][-3000:])
+                continue
             failed, k, out = replay_case(binary, body, wd, extra_args=pargs)
             if not failed:
                 detail.setdefault("flaky_candidates", 0)
@@ -905,6 +919,10 @@ def replay(path):
                 with open(path, errors="replace") as f:
                     txt = f.read()
                 failed, k, out = replay_case(binary, txt, wd, extra_args=part_args(prop, p))
+                for _ in range(29 if (p.get("timing") and not failed) else 0):   # timing-dependent part: up to 30 attempts
+                    failed, k, out = replay_case(binary, txt, wd, extra_args=part_args(prop, p))
+                    if failed:
+                        break
                 print(out[-6000:])
                 shutil.rmtree(wd, ignore_errors=True)
                 if failed:
